@@ -410,6 +410,35 @@ def r07k(F):
 		out.append(Result('07.k', False, 'anchor:preimage-claims-collect', 'get_counterparty_output_claims_for_preimage no longer returns a collected iterator chain', where=F.where(fn)))
 	return out
 
+def _blocks_touching_field(fu, field):
+	out = set()
+	tag = '.%s#' % field
+	for bi, b in enumerate(fu.blocks):
+		txt = json.dumps(b['s']) + json.dumps(b['t'])
+		if tag in txt:
+			out.add(bi)
+	return out
+
+def r07l(F):
+	"""when another commitment confirms, the claims prepared for the commitment that did not (or no longer does) confirm are abandoned:
+	OnchainTxHandler::abandon_claim either removes the generated claim (pending_claim_requests) or purges the still time-locked one
+	(locktimed_packages) on EVERY path - a shortcut keyed on the generated claims alone leaves a time-locked HTLC-timeout claim that is
+	broadcast, registered and fee-bumped forever although its commitment is not in the chain"""
+	import json as _j
+	fn = 'lightning::chain::onchaintx::OnchainTxHandler::abandon_claim'
+	fu = F.func(fn)
+	lt = _blocks_touching_field(fu, 'locktimed_packages')
+	pr = set()
+	ex = Expr(fu)
+	for b, ci in fu.calls():
+		if norm(ci.get('f') or '').endswith('::remove') and ci['args'] and 'pending_claim_requests' in expr_str(ex.of_operand(ci['args'][0])):
+			pr.add(b)
+	rets = {bi for bi, b in enumerate(fu.blocks) if b['t'][1] == 'ret'}
+	if not lt or not pr:
+		return [Result('07.l', False, 'anchor:abandon_claim', 'abandon_claim: purge of locktimed_packages (%d site(s)) / removal from pending_claim_requests (%d) not found' % (len(lt), len(pr)), where=F.where(fn))]
+	# the arm that found a generated claim need not scan the time-locked ones: cut at the decision "claim id found"
+	return P5_must_pass(F, '07.l', fu, [0], rets, lt | pr, what='the purge of locktimed_packages or the removal of the generated claim', key='abandon-claim-covers-timelocked')
+
 RULES = [
 	('07.k', 'late preimage: every matching HTLC of the confirmed counterparty commitment is claimed (exhaustive iterator chain)', r07k),
 	('07.j', 'claims are recorded at the confirmation height of the commitment transaction (pending funding spend, all claim builders)', r07j),
@@ -426,4 +455,5 @@ RULES = [
 	('07.q', 'no call hands a value named like one parameter of the callee to a different parameter (swapped type-compatible arguments; rules/provenance.py)', lambda F: provenance.swaps_for_property(F, 'C07', '07.q')),
 	('07.v', 'field-versus-field comparisons (a received value against a limit, an id against an id) are the reviewed ones: same fields, same operator (rules/provenance.py)', lambda F: provenance.cmps_for_property(F, 'C07', '07.v')),
 	('07.z', 'named protocol / policy constants in this property\'s files have their reviewed values (rules/provenance.py)', lambda F: provenance.consts_for_property(F, 'C07', '07.z')),
+	('07.l', 'abandoning the claims of a commitment that is not (or no longer) confirmed also purges the still time-locked ones', r07l),
 ]
